@@ -129,7 +129,9 @@ def run(ctx, report):
     for ti, docs3 in enumerate(trials):
         # the second name set orders differently by file name and by stem ('-' sorts before '.'): only the file name counts
         names = (["generated.json", "overwrite.json", "zz_local.json"], ["overwrite-local.json", "overwrite.json", "zz.json"],
-                 ["Local.json", "generated.json", "overwrite.json"], ["a_b.json", "aZ.json", "ab.json"])[ti % 4]
+                 ["Local.json", "generated.json", "overwrite.json"], ["a_b.json", "aZ.json", "ab.json"],
+                 ["generated.json", "overwrite_2.json", "overwritev.json"])[ti % 5]
+        # fifth set: a stem ending in "2" / in "v" is not a v2 file - only the stem suffix "v2" is
         # third / fourth sets: upper-case and '_' order differently by code point and case-insensitively; code-point order counts
         for order_name, order in (("reverse", lambda xs: sorted(xs, reverse=True)), ("rotated", lambda xs: sorted(xs)[1:] + sorted(xs)[:1])):
             itg = fresh_interp(ctx)
